@@ -230,6 +230,11 @@ def hygiene(ctx):
     shared mutable defaults, memoised mutable results, cloned sibling bodies, module-level alias writes, catch-all handlers
     around a loop, write-open without truncation).  Each is decided from the source; on the
     tree as it stands none occurs in any anchored file, so every finding is new."""
+    # every analysis of the pack expects zero findings on today's tree: its positive example must still match
+    from . import lint_selftest
+    n_ex, fails = lint_selftest.run_all()
+    ctx.require(not fails, "generic pack self-test: " + "; ".join(fails))
+    ctx.ob("G", "self-test", f"{n_ex} analyses of the generic pack each flag their positive example and leave the repaired twin alone (examples are parsed, not run)", file="sa/core/lint_selftest.py")
     bash_scope(ctx, "G")
     files = [f for f in anchor_files(ctx.prop) if f in ctx.program.by_rel]
     if not files:
